@@ -22,7 +22,32 @@ def build(ctx):
     ctx.log("ocaml", out[-3000:])
     if not ok:
         ctx.diag.append("extracted model does not build: " + out[-600:])
+    ok, out = C.build_ocaml("c14alias")
+    ctx.log("ocaml c14alias", out[-3000:])
+    if not ok:
+        ctx.diag.append("extracted store model does not build: " + out[-600:])
     return True
+
+
+def server_corr(ctx):
+    """phase 5: the server's validate operation (Service.ValidateFile and the HTTP route) against the extracted store model."""
+    d = os.path.join(ctx.rundir, "srvcorr")
+    os.makedirs(d, exist_ok=True)
+    rc, out = C.sh([os.path.join(C.BIN, "c14"), "srvcorr", "-out", d, "-repo", C.REPO, "-n", str(ctx.scale(1800, 30000))], timeout=3000)
+    ctx.log("srvcorr", out[-1000:])
+    drv = os.path.join(C.BUILD, "ocaml", "c14alias", "driver")
+    if rc == 0 and os.path.exists(drv):
+        rc2, out2 = C.sh("%s %s > %s" % (drv, os.path.join(d, "srvcases.txt"), os.path.join(d, "srvmodel.txt")), timeout=3000)
+        if rc2 != 0:
+            ctx.diag.append("extracted store model crashed: " + out2[-300:])
+        ctx.compare("stored files after each validate request", os.path.join(d, "srvmodel.txt"), os.path.join(d, "srvimpl.txt"), os.path.join(d, "srvcases.txt"))
+    else:
+        ctx.diag.append("server correspondence could not run: " + out[-300:])
+    before = len(ctx.fails)
+    summ = ctx.read_jsonl(os.path.join(d, "srvoracle.jsonl"))
+    for f in ctx.fails[before:]:
+        f["input"] = f.get("case")
+    ctx.add_summary(summ, "server validate")
 
 
 def oracle(ctx, n, sub="oracle"):
@@ -79,6 +104,7 @@ def run(ctx):
         ctx.compare("state after each operation", os.path.join(d, "model.txt"), os.path.join(d, "impl.txt"), os.path.join(d, "cases.txt"))
     else:
         ctx.diag.append("correspondence could not run: " + out[-300:])
+    server_corr(ctx)
     summ = oracle(ctx, ctx.scale(15000, 150000))
     ctx.add_summary(summ, "snapshot oracle")
     optsdom.run(ctx, "C14")
